@@ -36,4 +36,10 @@ CHECKS = {
         "text": "Layout facts are read out at run time for every library unit and generated compound units x 11 reps; every same-unit operator is executed on exhaustive 8-bit operand pairs and boundary/random wider operands and compared (value and result rep) with the raw operator in the same TU; in(unit) round trips are compared bit-for-bit over float/double/long double/int patterns; each operator is also compiled on each rep under several compiler/standard configurations with the raw operator as control.",
         "note": "Trusted: the raw C++ operators as reference, the 128-bit raw-UB oracle, gcc/clang diagnostics parsing for the probe half (re-checked in isolation).",
     },
+    "C19": {
+        "module": ("vf.props.c19", "C19"), "engine": "planeA+planeC",
+        "technique": "runtime monitoring: expressions mixing ZERO and quantities executed on laundered values and compared with the raw expression on 0 (UBSan trap attribution); compile-outcome probes for the QuantityPoint refusals",
+        "text": "For sampled library and generated units x 11 reps, all 8/16-bit values and boundary/NaN/inf/-0.0/denormal/random wider values go through 23 expressions mixing ZERO with the quantity (six comparisons both ways, +, -, +=, -=, construction, assignment, min/max, conversion to every arithmetic type and chrono durations) and are compared with the raw expression; probes check that ZERO is refused for QuantityPoint in 9 syntactic positions (with the Quantity form as control) in several configurations.",
+        "note": "Trusted: raw C++ expressions as reference; diagnostics parsing with isolation re-check for the refusal half.",
+    },
 }
